@@ -423,6 +423,11 @@ type vcScenario func(t *vcTrial)
 
 var vcScenarios = map[string]vcScenario{}
 
+// vcDirected holds, per scenario, fixed-configuration trials (regressions of fixed findings,
+// corner cases the random generator reaches rarely). They run first in the batch that starts
+// at trial 0, with negative trial numbers.
+var vcDirected = map[string][]vcScenario{}
+
 func vcSortedKeys(m map[string]int) []string {
 	ks := make([]string, 0, len(m))
 	for k := range m {
@@ -460,9 +465,22 @@ func TestVerifConn(t *testing.T) {
 	trials, nontrivial, inconcl := 0, 0, 0
 	nextCase := from + count
 	var inconclList []interface{}
-	for idx := from; idx < from+count; idx++ {
-		ts := vfMix2(seed^vfMix(uint64(len(scen))*131+uint64(scen[len(scen)-1])), uint64(idx))
+	first := from
+	ndir := len(vcDirected[scen])
+	if from == 0 && vfEnvInt("VERIF_NO_DIRECTED", 0) == 0 {
+		first = -ndir
+	}
+	if d := vfEnvInt("VERIF_DIRECTED_ONLY", 0); d != 0 {
+		first, count, from = -ndir, 0, 0
+	}
+	for idx := first; idx < from+count; idx++ {
+		ts := vfMix2(seed^vfMix(uint64(len(scen))*131+uint64(scen[len(scen)-1])), uint64(int64(idx)))
 		tr := &vcTrial{Scen: scen, Idx: idx, Seed: ts, R: vfNewRng(ts)}
+		fn := fn
+		if idx < 0 {
+			fn = vcDirected[scen][-idx-1]
+			tr.P("directed", -idx-1)
+		}
 		vfProgress(vfSprintf("%s trial=%d seed=%d", scen, idx, ts))
 		tr.Mark = vcTraceMark()
 		done := make(chan struct{})
